@@ -7,6 +7,11 @@
 use crate::errors::{Error, Result};
 use std::cell::RefCell;
 
+#[cfg(feature = "cloud")]
+pub use crate::server::cloud::verif_store::{
+    cloud_server, set_draws, CloudHandle, Cryptor, ObjectStore, StoreFault, StoreRequest,
+};
+
 /// What a failpoint does when it is hit.
 #[derive(Clone, Copy, Debug, PartialEq, Eq)]
 pub enum FailAction {
